@@ -534,8 +534,9 @@ Theorem fq_seek_sane ffuel r line byte_ r' o : fq_seek ffuel r line byte_ = (r',
 Proof.
   unfold fq_seek. intros H S.
   destruct ((0 <=? Z.of_nat (p0 r) + (Z.of_nat byte_ - Z.of_nat (qbyte r)))%Z &&
-            (Z.of_nat (p0 r) + (Z.of_nat byte_ - Z.of_nat (qbyte r)) <? Z.of_nat (length (qbuf r)))%Z) eqn:Ec.
-  { apply andb_true_iff in Ec. destruct Ec as [E1 E2]. apply Z.leb_le in E1. apply Z.ltb_lt in E2.
+            (Z.of_nat (p0 r) + (Z.of_nat byte_ - Z.of_nat (qbyte r)) <? Z.of_nat (length (qbuf r)))%Z && negb (fq_state_eqb (qst r) QNew)) eqn:Ec.
+  { apply andb_true_iff in Ec. destruct Ec as [Ec _].
+    apply andb_true_iff in Ec. destruct Ec as [E1 E2]. apply Z.leb_le in E1. apply Z.ltb_lt in E2.
     inversion H; subst. split; [|discriminate]. unfold FqSane, OffHead. fq_simpl. lia. }
   destruct (src_seek (qsrc r) byte_) as [s' res] eqn:Es.
   destruct res as [k|].
